@@ -1,12 +1,14 @@
 /-
   C40 — file caches honour their validity rules and stay within budget.
 
-  Model: `Sm/Lru.lean` (`DefaultCacheState` + `LruQueue`, branch for branch). Everything below is
-  quantified over *all* operation histories (`List Op`), all keys, sizes, limits, TTLs and clock
-  advances.  `refines_finite_map_statement` — "a `get` hit returns the last value `put` under that
-  key" — is FALSE for the code as it stands (a zero-size `put` is ignored and leaves the previous
-  entry in place): `refines_finite_map_fails` is the kernel-checked witness,
-  `refines_finite_map_partial` the part that holds.
+  Model: `Sm/Lru.lean` (`DefaultCacheState` + `LruQueue`, branch for branch, after /repo commit 82a9f7c).
+  Everything below is quantified over *all* operation histories (`List Op`), all keys, sizes,
+  limits, TTLs and clock advances.  `refines_finite_map` — a `get` hit returns the value of the last
+  `put` under that key, within its TTL; a zero-size or oversize `put` behaves as a `remove`
+  (`rejected_put_is_remove`) — holds in full for the current code.  The pinned upstream `put`
+  ignored a zero-size value without removing the entry already cached under the key:
+  `zero_size_put_serves_stale` / `refines_finite_map_fails_upstream` are the kernel-checked witnesses
+  (repaired by 82a9f7c).
 -/
 import DfModel.Sm.Lru
 import DfModel.Proofs.C40
@@ -120,8 +122,10 @@ theorem lru_eviction_order (s : St) (h : CacheInv s) (op : Op) (e e' : Ent)
   rcases hop with ⟨k, v, rfl, hek, hek'⟩ | ⟨n, rfl⟩
   · by_cases hz : v.size = 0
     · exfalso; apply hgone
-      simp only [step, stepCore, putSt, hz, if_true, keys, List.mem_map]
-      exact ⟨e, he, rfl⟩
+      simp only [step, stepCore, putSt, hz, if_true]
+      rw [(removeSt_spec k h).2.1]
+      simp only [keys, List.mem_map]
+      exact ⟨e, mem_removeKey.mpr ⟨he, hek⟩, rfl⟩
     · by_cases hbig : k.size + v.size > s.limit
       · exfalso; apply hgone
         simp only [step, stepCore, putSt, hz, hbig, if_true, if_false]
@@ -230,16 +234,15 @@ theorem contains_true_not_expired (s : St) (k : Key) (h : (step s (.contains k))
 def Agree (s : St) (m : Spec) : Prop := ∀ e ∈ s.q, m e.key = some (e.val, e.expires)
 
 theorem agree_step (s : St) (m : Spec) (op : Op) (h : CacheInv s) (ha : Agree s m) :
-    Agree (step s op).1 (specStep false s m op) := by
+    Agree (step s op).1 (specStep s m op) := by
   unfold CacheInv at h
   intro e' he'
   cases op with
   | put k v =>
     simp only [step, stepCore] at he'
-    rcases putSt_q_mem h he' with ⟨hz, hm⟩ | ⟨hz, ⟨hm, hk⟩ | hnew⟩
-    · simp only [specStep, hz, and_self, if_true]; exact ha e' hm
-    · simp only [specStep, hz, false_and, if_false, hk]; exact ha e' hm
-    · subst hnew; simp [specStep, hz, newEnt]
+    rcases putSt_q_mem h he' with ⟨hm, hk⟩ | ⟨_, hnew⟩
+    · simp only [specStep, hk, if_false]; exact ha e' hm
+    · subst hnew; simp [specStep, newEnt]
   | get k =>
     simp only [step, stepCore] at he'
     obtain ⟨e, hm, hc⟩ := getSt_q_mem h he'
@@ -267,34 +270,24 @@ theorem agree_step (s : St) (m : Spec) (op : Op) (h : CacheInv s) (ha : Agree s 
     rw [(dropKeys_spec _ h).2.1] at he'
     exact ha e' (List.mem_filter.mp he').1
 
-theorem runSpec_fst (ideal : Bool) (s : St) (m : Spec) (ops : List Op) :
-    (runSpec ideal s m ops).1 = (run s ops).1 := by
+theorem runSpec_fst (s : St) (m : Spec) (ops : List Op) :
+    (runSpec s m ops).1 = (run s ops).1 := by
   induction ops generalizing s m with
   | nil => rfl
   | cons op ops ih => simp only [runSpec, run]; exact ih _ _
 
 theorem agree_run (s : St) (m : Spec) (ops : List Op) (h : CacheInv s) (ha : Agree s m) :
-    Agree (runSpec false s m ops).1 (runSpec false s m ops).2 := by
+    Agree (runSpec s m ops).1 (runSpec s m ops).2 := by
   induction ops generalizing s m with
   | nil => exact ha
   | cons op ops ih => exact ih _ _ (inv_step s op h) (agree_step s m op h ha)
 
-/-- all `put`s of a history carry a value of non-zero size -/
-def NoZeroPut (ops : List Op) : Prop := ∀ k v, Op.put k v ∈ ops → v.size ≠ 0
-
-/-- **what "behaves as a map" requires**: after any history, a `get` hit returns the value of the
-    last `put` under that key (`ideal = true`: every `put` counts). -/
-def refines_finite_map_statement : Prop :=
-  ∀ (limit : Nat) (ttl : Option Nat) (ops : List Op) (k : Key) (v : Val),
-    (step (run (init limit ttl) ops).1 (.get k)).2 = .some v →
-    ∃ exp, (runSpec true (init limit ttl) (fun _ => none) ops).2 k = some (v, exp)
-
-/-- **proved part** (no hypothesis on the history): a `get` hit returns the last value of
-    *non-zero size* `put` under that key, and it is served within the TTL that was in force when it
-    was put (`exp = now_at_put + ttl_at_put`). -/
-theorem refines_finite_map_partial (limit : Nat) (ttl : Option Nat) (ops : List Op) (k : Key) (v : Val)
+/-- **the cache behaves as a map** (current code, every history, no hypothesis): a `get` hit returns
+    the value of the LAST `put` under that key — whatever the sizes of the values put in between —
+    and it is served within the TTL that was in force at that put (`exp = now_at_put + ttl_at_put`). -/
+theorem refines_finite_map (limit : Nat) (ttl : Option Nat) (ops : List Op) (k : Key) (v : Val)
     (hit : (step (run (init limit ttl) ops).1 (.get k)).2 = .some v) :
-    ∃ exp, (runSpec false (init limit ttl) (fun _ => none) ops).2 k = some (v, exp) ∧
+    ∃ exp, (runSpec (init limit ttl) (fun _ => none) ops).2 k = some (v, exp) ∧
       ∀ x, exp = some x → (run (init limit ttl) ops).1.now ≤ x := by
   have hag := agree_run (init limit ttl) (fun _ => none) ops (inv_init limit ttl) (by intro e he; cases he)
   rw [runSpec_fst] at hag
@@ -304,46 +297,54 @@ theorem refines_finite_map_partial (limit : Nat) (ttl : Option Nat) (ops : List 
   rw [hk, hv] at this
   exact this
 
-theorem specStep_ideal_eq (s : St) (m : Spec) (op : Op) (h : ∀ k v, op = .put k v → v.size ≠ 0) :
-    specStep true s m op = specStep false s m op := by
-  cases op with
-  | put k v => have := h k v rfl; simp [specStep, this]
-  | _ => rfl
+/-- a `put` that cannot be cached (zero-size value, or key + value larger than the limit) behaves
+    exactly as `remove(key)`: same state, same returned previous value -/
+theorem rejected_put_is_remove (s : St) (k : Key) (v : Val)
+    (h : v.size = 0 ∨ k.size + v.size > s.limit) : step s (.put k v) = step s (.remove k) := by
+  simp only [step, stepCore, putSt]
+  rcases h with h | h
+  · simp [h]
+  · by_cases hz : v.size = 0
+    · simp [hz]
+    · simp [hz, h]
 
-theorem runSpec_ideal_eq (s : St) (m : Spec) (ops : List Op) (h : NoZeroPut ops) :
-    runSpec true s m ops = runSpec false s m ops := by
-  induction ops generalizing s m with
-  | nil => rfl
-  | cons op ops ih =>
-    simp only [runSpec]
-    rw [specStep_ideal_eq s m op (fun k v e => h k v (by rw [e]; exact List.mem_cons_self)),
-      ih _ _ (fun k v hm => h k v (List.mem_cons_of_mem _ hm))]
+/-- … hence right after it the key is absent -/
+theorem rejected_put_then_miss (s : St) (hs : CacheInv s) (k : Key) (v : Val)
+    (h : v.size = 0 ∨ k.size + v.size > s.limit) :
+    (step (step s (.put k v)).1 (.get k)).2 = .none := by
+  rw [rejected_put_is_remove s k v h]
+  apply step_get_miss
+  simp only [step, stepCore]
+  rw [(removeSt_spec k hs).2.1]
+  exact not_mem_keys_removeKey _ _
 
-/-- …so the full map statement holds for every history without zero-size `put`s. -/
-theorem refines_finite_map_of_no_zero_put (limit : Nat) (ttl : Option Nat) (ops : List Op) (k : Key)
-    (v : Val) (hnz : NoZeroPut ops)
-    (hit : (step (run (init limit ttl) ops).1 (.get k)).2 = .some v) :
-    ∃ exp, (runSpec true (init limit ttl) (fun _ => none) ops).2 k = some (v, exp) := by
-  obtain ⟨exp, h, _⟩ := refines_finite_map_partial limit ttl ops k v hit
-  exact ⟨exp, by rw [runSpec_ideal_eq _ _ _ hnz]; exact h⟩
+/-! #### the pinned upstream `put` (before 82a9f7c) violated the map statement -/
+
+def refines_finite_map_upstream_statement : Prop :=
+  ∀ (limit : Nat) (ttl : Option Nat) (ops : List Op) (k : Key) (v : Val),
+    (stepUpstream (runUpstream (init limit ttl) ops).1 (.get k)).2 = .some v →
+    ∃ exp, (runSpecUpstream (init limit ttl) (fun _ => none) ops).2 k = some (v, exp)
 
 def kA : Key := { id := 1, size := 2, table := none }
 def vOld : Val := { id := 10, size := 5, fsize := 0, mtime := 0, fp := 0 }
 def vZero : Val := { id := 11, size := 0, fsize := 0, mtime := 0, fp := 0 }
 
-/-- **the code violates the map statement** (witness): `put(k, vOld)`; `put(k, vZero)` with
-    `vZero.size() == 0` is ignored and does *not* remove the previous entry; `get(k)` then serves the
-    stale `vOld` although the last value put under `k` is `vZero`. -/
+/-- **witness** (upstream code): `put(k, vOld)`; `put(k, vZero)` with `vZero.size() == 0` was ignored
+    and did *not* remove the previous entry; `get(k)` then served the stale `vOld` although the last
+    value put under `k` is `vZero`. -/
 theorem zero_size_put_serves_stale :
-    (step (run (init 100 none) [.put kA vOld, .put kA vZero]).1 (.get kA)).2 = .some vOld ∧
-    (runSpec true (init 100 none) (fun _ => none) [.put kA vOld, .put kA vZero]).2 kA = some (vZero, none) := by
+    (stepUpstream (runUpstream (init 100 none) [.put kA vOld, .put kA vZero]).1 (.get kA)).2 = .some vOld ∧
+    (runSpecUpstream (init 100 none) (fun _ => none) [.put kA vOld, .put kA vZero]).2 kA = some (vZero, none) := by
   decide
 
-theorem refines_finite_map_fails : ¬ refines_finite_map_statement := by
+theorem refines_finite_map_fails_upstream : ¬ refines_finite_map_upstream_statement := by
   intro h
   obtain ⟨exp, he⟩ := h 100 none [.put kA vOld, .put kA vZero] kA vOld zero_size_put_serves_stale.1
   rw [zero_size_put_serves_stale.2] at he
   cases he
+
+/-- the same history on the current code: the zero-size `put` removes the entry, `get` misses -/
+example : (step (run (init 100 none) [.put kA vOld, .put kA vZero]).1 (.get kA)).2 = .none := by decide
 
 /-! ### drop_table_entries -/
 
@@ -430,7 +431,7 @@ example :
         .contains k2, .setTtl none, .put k1 (v 7 4), .put k2 (v 8 4), .setLimit 6, .get k1,
         .dropTable 1, .get k2, .remove k1, .clear]).2
       = [.none, .none, .some (v 1 5), .none, .none,
-         .none, .some (v 1 5), .none, .bool true, .unit, .none,
+         .some (v 1 5), .none, .none, .bool true, .unit, .none,
          .bool false, .unit, .none, .none, .unit, .none,
          .unit, .none, .none, .unit] := by decide
 
